@@ -92,7 +92,7 @@ def r3(ctx):
     f = ctx.facts
     preds = []
     for b in f.bodies.values():
-        if b.path.startswith(HANDLER + "::") and b.kind == "assoc_fn" and b.arg_count == 2 and b.local_ty(0) == "bool" and b.local_ty(2) == "u8":
+        if b.path.startswith(HANDLER + "::") and b.kind == "assoc_fn" and b.arg_count in (1, 2) and b.local_ty(0) == "bool" and b.local_ty(b.arg_count) == "u8":
             preds.append(b)
     rep.check(len(preds) >= 3, "predicates-found", "%d (u8)->bool opcode predicates in BinaryHandler" % len(preds), "only %d opcode predicates found in BinaryHandler (3 confirmed)" % len(preds))
     ps = pairs(ctx)
